@@ -783,7 +783,9 @@ def judge(line, impl):
         else:
             bad.append((i, "unexpected status %d" % status, facts))
         # bookkeeping from the observation alone
-        if ostatus == 200:
+        if len(contacts) > 1 and ostatus != 200:
+            held, last_xv, upd_lm, upd_etag = None, None, None, None   # a revalidation that was not used: the old entry is gone
+        elif ostatus == 200:
             held, last_xv, upd_lm, upd_etag = st.k, i, None, None
         elif ostatus == 304 and held is not None:
             last_xv = i
@@ -889,7 +891,9 @@ def _events(vers, steps, obs, upto):
     held = None
     for j in range(upto + 1):
         oc = obs[j][5].split("+")[-1]
-        if oc.startswith("200:") and steps[j].m == "G":
+        if "+" in obs[j][5] and not oc.startswith("200:"):
+            held, ev = None, []            # the revalidation was not used and the old entry dropped
+        elif oc.startswith("200:") and steps[j].m == "G":
             held, ev = steps[j].k, []      # a fresh copy replaced the entry
         elif oc.startswith("304:") and held is not None:
             if steps[j].k != held and names_other(vers, steps[j].k, held):
